@@ -80,10 +80,9 @@ func SFileSys(fs FileSys) Session {
 
 func (sess *session) Stop(err error) error {
 	ctx := CancelledCtxt{}
-	sess.refs.Range(func(fid, ref1 interface{}) bool {
-		ref, ok := ref1.(*SFid)
-		if ok && ref.Ent != nil { // close and clunk
-			delRefAction(ctx, ref, false)
+	sess.refs.Range(func(fid1, _ interface{}) bool {
+		if fid, ok := fid1.(Fid); ok { // unbind, lock, close and clunk
+			sess.delRef(ctx, fid, false)
 		}
 		return true
 	})
